@@ -52,6 +52,14 @@ Scen09 == { [prev |-> [f \in CFiles |-> IF f = "fa" THEN pa ELSE pb],
                                         ELSE [f |-> "fb", m |-> mb, cleanup |-> cb]]]
             : pa \in PrevMenu, pb \in PrevMenu, ma \in Menu, mb \in Menu, cb \in BOOLEAN }
 
+\* simulation only: files that request the same name TWICE (their pushes to one reverse-index vector interleave)
+MenuSim == Menu \cup { Module(<<Test("test_1", <<"n">>), Test("test_2", <<"n">>)>>),
+                       Module(<<PlainDef("x", <<"n">>), Test("test_1", <<"n", "x">>), Test("test_2", <<"x", "n">>)>>) }
+Scen09Sim == { [prev |-> [f \in CFiles |-> IF f = "fa" THEN pa ELSE pb],
+                job |-> [t \in {1, 2} |-> IF t = 1 THEN [f |-> "fa", m |-> ma, cleanup |-> TRUE]
+                                           ELSE [f |-> "fb", m |-> mb, cleanup |-> cb]]]
+               : pa \in PrevMenu, pb \in PrevMenu, ma \in MenuSim, mb \in MenuSim, cb \in BOOLEAN }
+
 \* C10: the scan worker (disk text, no cleanup) and the editor (buffer text, cleanup) on the SAME file
 Scen10 == { [prev |-> [f \in CFiles |-> Absent],
              job |-> [t \in {1, 2} |-> IF t = 1 THEN [f |-> "fa", m |-> disk, cleanup |-> FALSE]
